@@ -167,13 +167,13 @@ def c19_run(prop, tier, seed):
 P_ASSUME = COMMON_ASSUME + ["the reference evaluator and the AST printer are trusted (guarded by the wrong-reference self-test and the mutation demos)"]
 
 SPECS = {}
-QUICK_FAMILIES = ["shape", "scc", "lat", "agg", "timeout", "ds", "par", "sugar", "macro", "pack", "packseg", "perm"]
+QUICK_FAMILIES = ["shape", "scc", "lat", "agg", "timeout", "ds", "par", "sugar", "macro", "pack", "packseg", "perm", "latbound"]
 SPECS["C01"] = {"run": prog_check(["shape", "scc"], "C01"), "replay": prog_replay,
                 "technique": "bounded-exhaustive enumeration of programs (compiled by the real macros) x all input databases, compared with a naive reference evaluator",
                 "assumptions": P_ASSUME + ["programs from the families F-shape and F-scc, domain {0,1}"]}
 SCHED = os.path.join(ENGINES, "sched")
 TARGET_SCHED = os.path.join(ROOT, "build", "target-sched")
-PAR_HARNESSES = ["H1-diamond-tc", "H2-two-rules-one-head", "H3-lattice-min", "H4-lattice-then-aggregate", "H5-negation", "H6-eqrel", "H7-three-way-join", "H8-mutual-lattices"]
+PAR_HARNESSES = ["H1-diamond-tc", "H2-two-rules-one-head", "H3-lattice-min", "H4-lattice-then-aggregate", "H5-negation", "H6-eqrel", "H7-three-way-join", "H8-mutual-lattices", "H10-lattice-third-clause"]
 
 
 def build_sched():
@@ -251,7 +251,13 @@ def c05_run(prop, tier, seed):
 SPECS["C05"] = {"run": c05_run, "replay": sched_replay("par"),
                 "technique": "bounded-exhaustive programs x inputs (incl. inputs with a duplicated fact) on the compiled real macros; row multiplicity, input-prefix and one-row-per-lattice-key oracles on every run",
                 "assumptions": P_ASSUME + ["serial part; the parallel part (all interleavings of workers deriving the same tuple) is explored by the vsched engine"]}
-SPECS["C13"] = {"run": prog_check(["scc", "lat", "agg", "par"], "C13", report_compile_failures=False), "replay": prog_replay,
+def c13_run(prop, tier, seed):
+    build_sched()
+    names = ["%s[%s]" % (h, v) for h in ("H9-rerun-tc", "H9-rerun-lattice-aggregate") for v in ("par", "par+irp")]
+    return [run_sched(prop, "par", names, tier, seed)] + prog_check(["scc", "lat", "agg", "par", "latbound"], "C13", report_compile_failures=False)(prop, tier, seed)
+
+
+SPECS["C13"] = {"run": c13_run, "replay": sched_replay("par"),
                 "technique": "bounded-exhaustive enumeration of run / add-facts histories over compiled programs x initial inputs x added fact sets, compared with the reference fixpoint of the union of inputs",
                 "assumptions": P_ASSUME + ["histories run;run and run;run;add;run (thorough: a second add;run and pairs of facts); facts added to any relation incl. derived ones; fresh lattice keys only"]}
 SPECS["C14"] = {"run": prog_check(["timeout"], "C14"), "replay": prog_replay,
